@@ -638,8 +638,8 @@ func (z *sess) judge(withCtrlO bool) {
 }
 
 func Run(r *mon.Run) {
-	r.Rule = "real -race binary on a pty with a fake shell over raw TLS sending numbered tokens; per session several mute cycles drawn from {continuous flood with Ctrl+O in the middle, burst, gaps of 1.5 s (must stay muted), gap above 2 s (must un-mute in between), Ctrl+O before any output}, with status lines (file requests) and a repeated Ctrl+O while muted, plus sessions without any Ctrl+O. All times come from one monotonic clock in the harness: s_i just before token i is sent, typed/announcement times as read from the pty. Verdicts are sound under load: a suppressed token with un-mute announced < 2 s after s_i; a token on the terminal before (Ctrl+O typed | previous suppressed token sent) + 2 s; a token sent after the un-muting announcement was read not displayed; a status line missing; any token missing in a session without Ctrl+O; no un-mute within 2 s + 20 s of calm while a canary request is answered. Engine stalled: the program runs with -ctrl-i <0.6-2 MB file>; (preview) Ctrl+J typed while muted must display its whole log message (header and contents); (stall) during a mute the harness stops draining the pty and types Ctrl+J so that the program's write of that message blocks holding the terminal's write lock, a token is sent 1.1-1.6 s after the previous one, the calm timer expires behind the blocked write, the harness drains again 2.3-3 s after the previous token: the suppressed token keeps the mute on for 2 s after it was sent (same rule as above, send and observation times only). Engine backlog: Ctrl+O on a terminal that does not keep up with an UN-muted flood. The harness stops draining the pty (stall) or drains it in short openings (until something has been read, at most ~2 ms) every 30-70 ms (slow), a fake shell (over /io or /i+/o) sends 250-440 chunks of 0.3-1.8 kB so that the program's writes block and a backlog forms in its output queue (never more than the queue holds, so requests are always answered); at 3-6 points of the flood a status line is generated (file request or refused input connection, each requested only after the previous request was answered, i.e. after the program accepted the line for display); then Ctrl+O is typed, 1-2 more status lines are requested while the key cannot be handled yet, and the terminal drains again (at once, or in openings every 5-20 ms until the muting announcement). After the announcement a sentinel status line is requested; lines are displayed in the order accepted, so once the sentinel is on the terminal every status line requested earlier must be on the terminal too (logical, no clock) - whether it was generated before or after Ctrl+O; the mute must then end by itself and later output be displayed. Nothing is demanded of shell tokens sent before Ctrl+O (they were waiting behind the terminal when the mute began; either fate is allowed). Control sessions (nomute) do the same without Ctrl+O: every flood token and every status line must be displayed. Non-vacuity is measured: a status line answered before Ctrl+O was typed counts as queued at the mute when it is displayed after the muting announcement, and as behind shell output when a flood token sent before it was suppressed and it is displayed after every displayed flood token; floors on both, on the number of sessions with such a line, and on the number of flood tokens suppressed. Content dimension (session engine): what is displayed again is compared byte for byte, not only looked for. Right after the un-muting announcement of every mute cycle has been read the fake shell sends a piece of content (8-130 bytes, one in six 2-5 kB, in 1-2 chunks) and then the ordinary ASCII token as sentinel; the first bytes of the content run through the classes {lone continuation bytes 0x80-0xBF, bytes that never occur in UTF-8 / a lead byte without continuation, Latin-1 text, NUL and control bytes other than ESC and CR, well-formed 2-4-byte characters, ASCII} (class = f(session, cycle), every class equally often), and in every other group of 6 cycles every chunk sent during the mute ends with the first byte(s) of a multibyte character whose remaining byte(s) then come first after the announcement (the mute swallowed the head); the rest of the content mixes all classes. The terminal is read as in C03 (ptyx clean text: prompt redraws undone, CR LF read back as LF; the content contains neither ESC nor CR): the bytes between the end of the un-muting announcement line and the sentinel token, with complete status lines (timestamp [address] File requested: /status-n-n) taken out, must be exactly the bytes sent after the announcement was read (whole chunks of that mute displayed late, in order, may precede them; whether they were early is the business of the timing rules). Controls, same comparison between the previous un-muted token and the sentinel: once before the first Ctrl+O of every session, after the in-cycle un-mute of 'gap' cycles (later output), and ten times in every session without Ctrl+O (all classes, every other one with a multibyte character split across two chunks, two of them with a status line requested and awaited in the middle, which exercises the taking-out). Floors: regions compared after an un-mute = sessions with Ctrl+O x cycles, each class 1/6 of that, half of them starting with a continuation byte, tails of really swallowed heads, controls per place, regions with a status line taken out. The token schedules and every timing rule are unchanged (the content has its own PRNG stream; the sentinel is the token that was sent at that point before). Engine endmuted (the end of the session while muted, under a configuration matrix): mute cycles that end not by calm but by the program leaving. The program is started under its other documented options - none, each of -one-shell, -no-timestamps, -ctrl-i <file>, -serve-files-from <dir>, -log <file> alone, and every pair of them (configuration = index mod 16), each flag in one of the spellings -flag value / -flag=value / --flag=value (-flag / --flag / -flag=true) drawn per session; a fake shell (/io, or /i + /o where the listener stays) floods numbered tokens EM<i>_<n>; one per chunk of 30-380 bytes, unpaced or nearly; once a token has been displayed (control) Ctrl+O is typed in the flood and the muting announcement awaited; while muted and still flooding, status and log lines are generated and must be displayed: a second Ctrl+O ('Already muted'), where the listener is still there a refused input connection and (with -serve-files-from) a file request, with -ctrl-i Ctrl+J (header and whole contents of the 'Would have sent' message); then, 0.1-0.6 s later, still muted and flooding, the session ends in one of the ways (rotated by index, round and seed over those the configuration allows): Ctrl+D, Ctrl+C, under -one-shell the end of the shell (stream ended by itself or connection dropped, the last chunk sent just before) plus an entered line (entered again every 2.5 s while the program is still there, steering only: a line typed before the program has noticed the end of the shell is an ordinary line), or the shell leaving (its notice 'Shell is gone' is demanded where the program stays, i.e. without -one-shell) and then Ctrl+D. Verdict, on the complete terminal output after the program has gone, no clock: between the muting announcement and the end of the output - or the first un-muting announcement, should the flood have paused for two seconds under load - there is no flood token (key muted-output-displayed-at-exit if tokens lie after the point where the exit was asked for, else output-displayed-while-muted). Measured: every configuration (= every option and every pair), every ending, sessions judged to the very end with no un-muting announcement, chunks sent while muted, sessions whose flood was still being accepted after the exit key was typed, status lines displayed while muted, Ctrl+J messages displayed while muted; 'Goodbye.' is only counted. distinct = distinct (cycle kinds, token count) sessions; all sessions are non-trivial (>= 4 tokens)"
-	r.Assumptions = []string{"real-time monitoring only: gaps within 0.4 s of the 2 s boundary are not generated", "observation time >= real time, send start <= arrival time", "content dimension: the line editor writes shell output to the terminal as it is except LF -> CR LF, and takes the prompt away and redraws it around each write with cursor-left/erase sequences that ptyx's clean text undoes (the reading C03's byte-exact engine relies on); ESC and CR are never sent", "endmuted engine: a flood token is a token of the session's own numbered flood; the muting announcement is written after the mute flag is set (opshell as written), so nothing the shell sent can follow it on the terminal before an un-muting announcement; an un-muting announcement before the end (flood starved for 2 s by load) only shortens the judged region and is counted, it is never a verdict; exit status and 'Goodbye.' are C20's business (a non-clean exit is inconclusive here)", "backlog engine: a request is answered only after its handler has handed the status line to the operator channel, and that channel is first-in first-out (both true of hsrv/iobroker/opshell as written); the size of the backlog that really forms is not assumed but measured (floors)"}
+	r.Rule = "real -race binary on a pty with a fake shell over raw TLS sending numbered tokens; per session several mute cycles drawn from {continuous flood with Ctrl+O in the middle, burst, gaps of 1.5 s (must stay muted), gap above 2 s (must un-mute in between), Ctrl+O before any output}, with status lines (file requests) and a repeated Ctrl+O while muted, plus sessions without any Ctrl+O. All times come from one monotonic clock in the harness: s_i just before token i is sent, typed/announcement times as read from the pty. Verdicts are sound under load: a suppressed token with un-mute announced < 2 s after s_i; a token on the terminal before (Ctrl+O typed | previous suppressed token sent) + 2 s; a token sent after the un-muting announcement was read not displayed; a status line missing; any token missing in a session without Ctrl+O; no un-mute within 2 s + 20 s of calm while a canary request is answered. Engine stalled: the program runs with -ctrl-i <0.6-2 MB file>; (preview) Ctrl+J typed while muted must display its whole log message (header and contents); (stall) during a mute the harness stops draining the pty and types Ctrl+J so that the program's write of that message blocks holding the terminal's write lock, a token is sent 1.1-1.6 s after the previous one, the calm timer expires behind the blocked write, the harness drains again 2.3-3 s after the previous token: the suppressed token keeps the mute on for 2 s after it was sent (same rule as above, send and observation times only). Engine backlog: Ctrl+O on a terminal that does not keep up with an UN-muted flood. The harness stops draining the pty (stall) or drains it in short openings (until something has been read, at most ~2 ms) every 30-70 ms (slow), a fake shell (over /io or /i+/o) sends 250-440 chunks of 0.3-1.8 kB so that the program's writes block and a backlog forms in its output queue (never more than the queue holds, so requests are always answered); at 3-6 points of the flood a status line is generated (file request or refused input connection, each requested only after the previous request was answered, i.e. after the program accepted the line for display); then Ctrl+O is typed, 1-2 more status lines are requested while the key cannot be handled yet, and the terminal drains again (at once, or in openings every 5-20 ms until the muting announcement). After the announcement a sentinel status line is requested; lines are displayed in the order accepted, so once the sentinel is on the terminal every status line requested earlier must be on the terminal too (logical, no clock) - whether it was generated before or after Ctrl+O; the mute must then end by itself and later output be displayed. Nothing is demanded of shell tokens sent before Ctrl+O (they were waiting behind the terminal when the mute began; either fate is allowed). Control sessions (nomute) do the same without Ctrl+O: every flood token and every status line must be displayed. Non-vacuity is measured: a status line answered before Ctrl+O was typed counts as queued at the mute when it is displayed after the muting announcement, and as behind shell output when a flood token sent before it was suppressed and it is displayed after every displayed flood token; floors on both, on the number of sessions with such a line, and on the number of flood tokens suppressed. Content dimension (session engine): what is displayed again is compared byte for byte, not only looked for. Right after the un-muting announcement of every mute cycle has been read the fake shell sends a piece of content (8-130 bytes, one in six 2-5 kB, in 1-2 chunks) and then the ordinary ASCII token as sentinel; the first bytes of the content run through the classes {lone continuation bytes 0x80-0xBF, bytes that never occur in UTF-8 / a lead byte without continuation, Latin-1 text, NUL and control bytes other than ESC and CR, well-formed 2-4-byte characters, ASCII} (class = f(session, cycle), every class equally often), and in every other group of 6 cycles every chunk sent during the mute ends with the first byte(s) of a multibyte character whose remaining byte(s) then come first after the announcement (the mute swallowed the head); the rest of the content mixes all classes. The terminal is read as in C03 (ptyx clean text: prompt redraws undone, CR LF read back as LF; the content contains neither ESC nor CR): the bytes between the end of the un-muting announcement line and the sentinel token, with complete status lines (timestamp [address] File requested: /status-n-n) taken out, must be exactly the bytes sent after the announcement was read (whole chunks of that mute displayed late, in order, may precede them; whether they were early is the business of the timing rules). Controls, same comparison between the previous un-muted token and the sentinel: once before the first Ctrl+O of every session, after the in-cycle un-mute of 'gap' cycles (later output), and ten times in every session without Ctrl+O (all classes, every other one with a multibyte character split across two chunks, two of them with a status line requested and awaited in the middle, which exercises the taking-out). Floors: regions compared after an un-mute = sessions with Ctrl+O x cycles, each class 1/6 of that, half of them starting with a continuation byte, tails of really swallowed heads, controls per place, regions with a status line taken out. The token schedules and every timing rule are unchanged (the content has its own PRNG stream; the sentinel is the token that was sent at that point before). Engine endmuted (the end of the session while muted, under a configuration matrix): mute cycles that end not by calm but by the program leaving. The program is started under its other documented options - none, each of -one-shell, -no-timestamps, -ctrl-i <file>, -serve-files-from <dir>, -log <file> alone, and every pair of them (configuration = index mod 16), each flag in one of the spellings -flag value / -flag=value / --flag=value (-flag / --flag / -flag=true) drawn per session; a fake shell (/io, or /i + /o where the listener stays) floods numbered tokens EM<i>_<n>; one per chunk of 30-380 bytes, unpaced or nearly; once a token has been displayed (control) Ctrl+O is typed in the flood and the muting announcement awaited; while muted and still flooding, status and log lines are generated and must be displayed: a second Ctrl+O ('Already muted'), where the listener is still there a refused input connection and (with -serve-files-from) a file request, with -ctrl-i Ctrl+J (header and whole contents of the 'Would have sent' message); then, 0.1-0.6 s later, still muted and flooding, the session ends in one of the ways (rotated by index, round and seed over those the configuration allows): Ctrl+D, Ctrl+C, under -one-shell the end of the shell (stream ended by itself or connection dropped, the last chunk sent just before) plus an entered line (entered again every 2.5 s while the program is still there, steering only: a line typed before the program has noticed the end of the shell is an ordinary line), or the shell leaving (its notice 'Shell is gone' is demanded where the program stays, i.e. without -one-shell) and then Ctrl+D. Verdict, on the complete terminal output after the program has gone, no clock: between the muting announcement and the end of the output - or the first un-muting announcement, should the flood have paused for two seconds under load - there is no flood token (key muted-output-displayed-at-exit if tokens lie after the point where the exit was asked for, else output-displayed-while-muted). Measured: every configuration (= every option and every pair), every ending, sessions judged to the very end with no un-muting announcement, chunks sent while muted, sessions whose flood was still being accepted after the exit key was typed, status lines displayed while muted, Ctrl+J messages displayed while muted; 'Goodbye.' is only counted. Engine calm (the length of the calm; concurrent with the sessions): the fake shell does not wait for the un-muting announcement. 3 mute cycles per session; after Ctrl+O muted chunks are sent at scripted offsets from the key press - the last one at +0.3, +0.9, +1.0, +1.5, +1.9 s (+-20 ms; every other case with an earlier chunk as well) or as the last of 3-5 chunks 0.15-0.45 s apart - then the shell is silent for 2.6, 3.0 or 3.4 s (cycle ordinal rotated by a draw of the seed: every phase meets every gap equally often, all 18 combinations at quick) and sends a recognisable chunk (the probe) without having awaited anything. By then no shell output has arrived for more than the pause interval, so the mute must have ended by itself: the un-muting announcement stands on the terminal before the probe and the probe is displayed (read once a closing token, sent after the announcement was read, is on the terminal). The harness measures when it really sent each chunk; the gap judged is the measured one (return of the last muted send to the start of the probe's send, never shorter than scripted; only >= 2.5 s is judged), its own scheduling delay is reported (extra calm_harness_send_delay_max_s). Real-time verdict, hence two steps: a cycle whose probe was swallowed (or displayed with no announcement before it) is a suspect; after everything else has finished each suspect is run again ALONE, as a session of its own with the same chunk offsets and the gap widened to 3.6 s, and only a deviation there is a violation (mute-outlasts-calm / mute-ended-without-announcement; at most 2 are confirmed, further suspects are counted); a suspect that does not show again alone is counted (calm_suspects_not_reproduced_alone) and not judged. The general token rules (nothing displayed while the mute must hold, no un-mute < 2 s after a suppressed chunk) apply to these sessions as well. Floors: sessions, cycles, probes displayed after the announcement >= 2/3 of the cycles and >= 2/3 of the cycles of every phase and of every gap, muted chunks really suppressed >= cycles. distinct = distinct (cycle kinds, token count) sessions; all sessions are non-trivial (>= 4 tokens)"
+	r.Assumptions = []string{"real-time monitoring only: gaps within 0.4 s of the 2 s boundary are not generated", "observation time >= real time, send start <= arrival time", "calm engine: a chunk reaches the program's mute bookkeeping soon after the harness's send has returned (loopback TLS); where load delays that, or the program's timer, by more than the margin (0.6-1.4 s among the concurrent sessions, 1.6 s alone) the cycle deviates, which is why a deviation counts only when it shows again in a session run alone with a 3.6 s gap; a defect that delays un-muting by less than 1.6 s beyond the pause interval at every phase is therefore not reported by this engine", "content dimension: the line editor writes shell output to the terminal as it is except LF -> CR LF, and takes the prompt away and redraws it around each write with cursor-left/erase sequences that ptyx's clean text undoes (the reading C03's byte-exact engine relies on); ESC and CR are never sent", "endmuted engine: a flood token is a token of the session's own numbered flood; the muting announcement is written after the mute flag is set (opshell as written), so nothing the shell sent can follow it on the terminal before an un-muting announcement; an un-muting announcement before the end (flood starved for 2 s by load) only shortens the judged region and is counted, it is never a verdict; exit status and 'Goodbye.' are C20's business (a non-clean exit is inconclusive here)", "backlog engine: a request is answered only after its handler has handed the status line to the operator channel, and that channel is first-in first-out (both true of hsrv/iobroker/opshell as written); the size of the backlog that really forms is not assumed but measured (floors)"}
 	bin, err := crs.Build(r.Work, "")
 	if err != nil {
 		r.Inconclusive("cannot build the binary: " + err.Error())
@@ -657,6 +657,13 @@ func Run(r *mon.Run) {
 				runEndMuted(r, bin, i)
 			}
 		})
+	}()
+	// engine calm runs at the same time too (real-time; a deviation there is only a suspect until confirmed alone, below)
+	calm := &calmEngine{n: r.N(6, 18)}
+	emwg.Add(1)
+	go func() {
+		defer emwg.Done()
+		calm.run(r, bin)
 	}()
 	mon.Parallel(n, n, func(i int) {
 		if r.Want("session", i) {
@@ -723,6 +730,10 @@ func Run(r *mon.Run) {
 		r.Eval(1)
 	}
 	r.Floor("repeat_cycles", int64(nrp))
+	// engine calm: suspects are confirmed now that nothing else runs
+	calm.confirm(r, bin)
+	calm.floors(r)
+	calmCycles := int64(calm.n * calmCyclesPerSession)
 	// content dimension
 	nCtl := int64(n / 4)             // sessions without Ctrl+O (index%4 == 3)
 	nMute := int64(n) - nCtl         // sessions with Ctrl+O
@@ -739,8 +750,8 @@ func Run(r *mon.Run) {
 	r.Floor("content_regions_compared", nPts+nMute+10*nCtl)
 	r.Floor("content_bytes_compared", 20*(nPts+nMute+10*nCtl))
 	r.Floor("sessions", int64(n))
-	r.Floor("mute_periods", int64(n))
-	r.Floor("tokens_suppressed", 20)
-	r.Floor("tokens_displayed", 50)
+	r.Floor("mute_periods", int64(n)+calmCycles)
+	r.Floor("tokens_suppressed", 20+calmCycles)  // the calm engine's muted chunks are counted here too
+	r.Floor("tokens_displayed", 50+3*calmCycles) // so are its un-muted token, probe and closing token per cycle
 	r.Floor("status_lines_while_muted", 3)
 }
